@@ -135,6 +135,36 @@ CHECKS.update({
         text='As C35 for FortranPythonTransformation; integers and logicals exact, reals exact because all values are dyadic.',
         note='"Equal up to the precision of the declared kinds" is checked as exact equality on dyadic values. Known findings per construct pool.'),
 })
+CHECKS.update({
+    'C23': dict(
+        technique='TLA+ specification SchedCase (projections of a run equal after case folding; Item equality/hash laws) model-checked with a negative control; case-permuted renderings of abstract projects run through the real Scheduler and compared by Trace_SchedCase',
+        text='Projects/configs are rendered under case permutations of name occurrence classes (sources, config keys, seeds, name-valued options such as duplication suffixes, file suffix); items, edges, probe-recorded processing order and lower-cased generated code of the original and the permuted run must be equal after folding; items differing only in case must be equal with equal hash.',
+        note='Known finding: Item.__hash__ hashes the un-folded name.'),
+    'C24': dict(
+        technique='TLA+ specification PlanWrite (Append = Written, Transform = OriginalsOf(Written), Remove = non-replicated originals) model-checked with a negative control; plan files of PLAN-strategy runs and the files written by real conversions recorded and validated by Trace_PlanWrite',
+        text='For generated projects x configs (roles, replicate, lib, output/build dir, mode) x pipelines incl. item-creating and renaming transformations the cmake plan lists and the really written files (both through the convert/plan entry in-process) are compared by TLC, with OriginalsOf/replicate predicted from the abstract project.',
+        note='Known findings: planning does not run DependencyTransformation; conversions raising where planning passes; module clones.'),
+    'C25': dict(
+        technique='TLA+ state machine SchedOps (DependencySuffix, ModuleWrap, Duplicate, Remove, Process; NoDanglingRef, CacheKeysAreCurrentNames, GraphNodesSubsetCache, LaterProcessVisitsSurvivors) model-checked with a negative control; TLC-generated histories replayed on the real Scheduler, projected state validated step by step, written sources compiled and linked',
+        text='Histories of <= 3 operations on small projects are replayed with process_transformation; after each step unit names per file, call/import names (from the IR), cache keys and graph nodes are projected and validated by Trace_SchedOps; finally the sources are written and linked with gfortran.',
+        note='Design-level defects found by TLC became preconditions of the model; many known findings (DuplicateKernel cloning whole modules, bystander routines, ModuleWrap).'),
+    'C34': dict(
+        technique='TLA+ reference machine FMachine (extended with expression bounds, assumed shape, sequence association and derived-type components) predicts the output of generated call trees; observed = gfortran run of the code after the call-signature transformations (through the Scheduler)',
+        text='Call trees with sequence-associated element actuals, duplicated actuals, assumed-shape dummies, derived-type arguments and type-bound calls are transformed by do_resolve_sequence_association, RemoveDuplicateArgs, ExplicitArgumentArrayShapeTransformation, DerivedTypeArgumentsTransformation, TypeboundProcedureCallTransformation and validated by Trace_FMachine.',
+        note='Known findings per sub-transformation.'),
+    'C37': dict(
+        technique='TLA+ reference machine FMachine predicts the output of generated driver/kernel call trees; observed = gfortran run (bounds checks, address sanitizer) of the code produced by every SCC pipeline variant through the real Scheduler',
+        text='IFS-style call trees (block loop driver, kernels with vertical/horizontal loops or vector notation, temporaries, nested kernels) under two naming/Dimension configurations x 20 pipeline variants; every transformed tree is compiled without accelerator directives and must print what Run(original, input) predicts; a corrupted observation in every batch must be rejected.',
+        note='Legal input domain: independent columns (listed in assumptions). CONTIGUOUS stripping / one element of stack padding are documented normalisations so that C38 defects do not mask SCC semantics. Known findings.'),
+    'C38': dict(
+        technique='Same machine and harness; hoisting and stack/pool allocator variants that gfortran can build (Cray pointers, direct index, raw stack, pool)',
+        text='16 variants of HoistTemporaryArrays / pool / stack transformations on generated call trees with automatic temporaries of several ranks and size expressions; behaviour validated by Trace_FMachine; "enough storage" observed through -fcheck=bounds, AddressSanitizer and the generated STOP of the pool allocator.',
+        note='The stack high-water mark is not compared against a TLC-side bound (FMachine has no notion of storage). Known findings.'),
+    'C39': dict(
+        technique='TLA+ reference machine FMachine + clause Trace_Parametrise (abort observed iff an input differs from the parametrised value); ParametriseTransformation driven through the Scheduler',
+        text='Call trees whose size/flag arguments are parametrised (replace_by_value / abort options, entry points); for matching inputs the output must equal the machine prediction, for non-matching inputs the guard must trigger.',
+        note='Known findings: duplicated actuals, disagreeing call sites, names left in PRINT.'),
+})
 NOT_APPLICABLE = {p: 'check not built yet (work in progress; see DESIGN.md build order)' for p in ALL if p not in CHECKS}
 for e in ENGINES:
     e['serves_properties'] = sorted(CHECKS)
